@@ -10,11 +10,17 @@
     and cookies handed to the upstream side are compared
       * with the model of each entry point (impl = model),
       * with the reference semantics (impl = spec: the property itself, entry point by entry point),
-      * pairwise between the entry points for what is not modelled (`Request.URL.String()`)."""
+      * pairwise between the entry points for what is not modelled (`Request.URL.String()`).
+    Every case names the log level the services run with (trace … disabled, written to a discarded writer; the dump
+    middleware of the HTTP based services only runs at trace) and bodies come in lengths from 0 to 300 KiB (every
+    kind of body at 0, 1, 300, 4096, 16383, 16384, 16385, 65536, 307200 bytes at trace and one other level in every
+    run, plus random lengths); for the proxy the payload its upstream received is compared as well."""
 import concurrent.futures
 import copy
 import json
 import os
+import shutil
+import time
 
 import gen_entryview
 import vlib
@@ -37,6 +43,26 @@ KF_TEXT = {
 
 # ---------------------------------------------------------------------------------------------------------------
 # running both sides
+
+DRIVER = None
+
+
+def driver_cmd(R=None, tries=120):
+    """The Lean driver of this run: copied into the run's temp directory right after it was built. Checks of other
+    properties running side by side re-link lean/.lake/build/bin/driver (the file is missing for a moment, and may
+    change while this run uses it)."""
+    global DRIVER
+    if DRIVER is None and R is not None:
+        src, dst = vlib.driver_cmd()[0], os.path.join(R.tmp, "driver-C13")
+        for _ in range(tries):
+            try:
+                shutil.copy2(src, dst)
+                DRIVER = [dst]
+                break
+            except OSError:
+                time.sleep(1)
+    return DRIVER or vlib.driver_cmd()
+
 
 def run_parallel(cmd, cases, workers):
     if len(cases) < 200 or workers <= 1:
@@ -111,8 +137,10 @@ def view_diff(ep, sa, ss, viol, hits):
             viol.append((ep, "view." + k, sa.get(k), ss.get(k)))
 
 
-def upstream_diff(ep, ua, us, single_valued, viol, hits):
-    """headers / cookies handed to the upstream side (ua) against the reference answer (us)"""
+def upstream_diff(ep, ua, us, single_valued, viol, hits, delivered=None):
+    """headers / cookies / payload handed to the upstream side (ua) against the reference answer (us)"""
+    if ua.get("payload") != us.get("payload"):
+        viol.append((ep, "upstream.payload", ua.get("payload"), us.get("payload")))
     if vlib.canon(ua.get("cookies")) != vlib.canon(us.get("cookies")):
         viol.append((ep, "upstream.cookies", ua.get("cookies"), us.get("cookies")))
     ha, hs = ua.get("headers") or [], us.get("headers") or []
@@ -120,8 +148,11 @@ def upstream_diff(ep, ua, us, single_valued, viol, hits):
         return
     # known finding: a header collected more than once, first value only at the HTTP based services (the echoed
     # values are query-escaped, so a comma can only be the separator of the joined list)
+    # (`delivered`: the reference answer with the first value of every collected header, computed by the driver — long
+    # values are compared by digest, which cannot be split)
     if ep != "envoy" and not single_valued and [p[0] for p in ha] == [p[0] for p in hs] and \
-            all(x[1] == y[1] or x[1] == y[1].split(",")[0] for x, y in zip(ha, hs)):
+            (all(x[1] == y[1] or x[1] == y[1].split(",")[0] for x, y in zip(ha, hs))
+             or (delivered is not None and vlib.canon(ha) == vlib.canon(delivered))):
         hits.append(KF_FIRST)
     else:
         viol.append((ep, "upstream.headers", ha, hs))
@@ -166,7 +197,7 @@ def spec_diff(case, i, m):
         if (ua is None) != (us is None):
             viol.append((ep, "upstream", ua, us))
         elif ua is not None:
-            upstream_diff(ep, ua, us, spec.get("single_valued"), viol, hits)
+            upstream_diff(ep, ua, us, spec.get("single_valued"), viol, hits, (spec.get("delivered") or {}).get(ep))
     return viol, hits
 
 
@@ -215,12 +246,12 @@ def url_known(u, covered, hits):
 
 
 def one(exe, case):
-    case = dict(case)
+    case = gen_entryview.expand(copy.deepcopy(case))
     case.setdefault("impl", impl_variant())
     i = vlib.run_cases([exe], [case])[0]
     if suspicious(i):
         i = vlib.run_cases([exe], [case])[0]
-    m = vlib.run_cases(vlib.driver_cmd(), [case])[0]
+    m = vlib.run_cases(driver_cmd(), [case])[0]
     return i, m
 
 
@@ -242,6 +273,10 @@ def candidates(cur):
     if cur.get("default") is not None:
         c = copy.deepcopy(cur)
         c.pop("default")
+        yield c
+    if cur.get("log") not in (None, "disabled"):
+        c = copy.deepcopy(cur)
+        c["log"] = "disabled"
         yield c
     rc = cur.get("respond") or {}
     if rc.get("verbose"):
@@ -318,8 +353,16 @@ def candidates(cur):
     if cur["req"].get("body") is not None:
         c = copy.deepcopy(cur)
         c["req"]["body"] = None
+        c["req"].pop("sized", None)
         c["req"]["headers"] = [h for h in c["req"]["headers"] if h[0].lower() != "content-length"]
         yield c
+        sz = cur["req"].get("sized")
+        if sz:
+            # a body given by kind and length: shorter ones (down to the exact length at which the case stops failing)
+            n = sz["size"]
+            for m in sorted({n // 2, 3 * n // 4, n - 1024, n - 64, n - 1}):
+                if 0 <= m < n:
+                    yield gen_entryview.resize(copy.deepcopy(cur), m)
     for fld, val in (("query", ""), ("tls", False), ("method", "GET"), ("envoy_body", "raw"), ("host", "a.example.com")):
         if cur["req"].get(fld) != val:
             c = copy.deepcopy(cur)
@@ -332,7 +375,7 @@ def candidates(cur):
             yield c
 
 
-def shrink(case, fails, max_runs=400):
+def shrink(case, fails, max_runs=500):
     """greedy structural shrinking while `fails(case)` stays true"""
     cur = copy.deepcopy(case)
     runs = 0
@@ -384,6 +427,12 @@ def features(case):
         f.append("body-" + r.get("envoy_body", "raw"))
     if r["tls"]:
         f.append("https")
+    f.append("log-" + (case.get("log") or "none"))
+    n = len(r["body"] or "")
+    f.append("body-bytes-" + ("0" if n == 0 else "1..1023" if n < 1024 else "1024..16383" if n < 16384
+                              else "16384..65535" if n < 65536 else "65536.."))
+    if n >= 16384 and case.get("log") == "trace":
+        f.append("body-of-16KiB-or-more-at-trace")
     if "default" in case:
         f.append("default-rule")
     if any(gen_entryview.canon(n).startswith("X-C13-") for n in names):
@@ -410,7 +459,7 @@ def original_note(exe, case):
     """does the implementation behave like the unpatched code on this case?"""
     c = dict(case, impl="original")
     i = vlib.run_cases([exe], [c])[0]
-    m = vlib.run_cases(vlib.driver_cmd(), [c])[0]
+    m = vlib.run_cases(driver_cmd(), [c])[0]
     if not model_diff(i, m):
         return (" [the implementation behaves exactly like the model of the code WITHOUT the patches "
                 "fixes/C13-1 … C13-5 on this input — they are not applied to this tree]")
@@ -419,25 +468,30 @@ def original_note(exe, case):
 
 def run(R):
     lean_ok = vlib.step_lean(R, PID)
+    driver_cmd(R, 120 if lean_ok else 1)
     exe = vlib.step_harness(R)
     if exe is None:
         R.violation("harness does not build against /repo (API used by the correspondence check changed)",
                     {"build_log": R.harness_log[-3000:]}, no_input=True)
         return
-    if not os.path.exists(vlib.driver_cmd()[0]):
+    if not os.path.exists(driver_cmd(R)[0]):
         R.violation("Lean driver does not build: " + "; ".join(R.lean.get("failed", []))[:600],
                     {"lean_log": R.lean["log"]}, no_input=True)
         return
-    corpus = vlib.load_corpus(PID)
+    corpus = [gen_entryview.expand(c) for c in vlib.load_corpus(PID)]
     n_wf, n_raw, n_nwf, workers = budget(R)
     variant = impl_variant()
-    gen = [gen_entryview.gen_case(R.rng) for _ in range(n_wf)]
-    gen_raw = [gen_entryview.gen_case(R.rng, raw=True) for _ in range(n_raw)]
-    gen_nwf = [gen_entryview.gen_case(R.rng, wellformed=False) for _ in range(n_nwf)]
-    cases = [dict(c, impl=variant) for c in corpus + gen + gen_raw + gen_nwf]
+    sized = gen_entryview.sized_cases(R.rng)
+    # share of generated cases with a body of a random length up to 300 KiB (mean 40 KiB): 8 % of 3 050 cases in the
+    # quick tier, 3 % of 54 000 in the thorough tier
+    sp = 0.08 if R.tier == "quick" else 0.03
+    gen = [gen_entryview.gen_case(R.rng, sized_p=sp) for _ in range(n_wf)]
+    gen_raw = [gen_entryview.gen_case(R.rng, raw=True, sized_p=sp) for _ in range(n_raw)]
+    gen_nwf = [gen_entryview.gen_case(R.rng, wellformed=False, sized_p=sp) for _ in range(n_nwf)]
+    cases = [dict(c, impl=variant) for c in corpus + sized + gen + gen_raw + gen_nwf]
     impl = run_parallel([exe], cases, workers)
     n_rerun = rerun_suspicious(exe, cases, impl)
-    model = run_parallel(vlib.driver_cmd(), cases, workers)
+    model = run_parallel(driver_cmd(), cases, workers)
 
     bad_model, bad_spec, bad_url, bad_body = [], [], [], []
     hits = {KF_HOST: 0, KF_FIRST: 0, KF_RAW: 0}
@@ -488,19 +542,24 @@ def run(R):
                 "contextualizer with an unreachable endpoint (so that every error class occurs); optionally a default "
                 "rule; a response configuration (`respond.verbose`, `respond.with.<class>.code` tables with pairwise "
                 "different codes, the same block for decision and proxy service, Envoy using the decision's); in 30 % "
-                "the client itself sends headers the pipeline sets for the upstream. Each case goes through the "
+                "the client itself sends headers the pipeline sets for the upstream; the log level the three services "
+                "are created with (trace, debug, info, warn, error, disabled; logger writing to a discarded writer); "
+                "in 8 % a body of a random length up to 300 KiB (JSON, form, YAML, text, truncated JSON), and in every "
+                "run each of these kinds at 0, 1, 300, 4096, 16383, 16384, 16385, 65536, 307200 bytes at trace and at "
+                "one other level behind a rule whose pipeline echoes the body. Each case goes through the "
                 "real decision, proxy and Envoy ext_authz services and through the Lean model and reference "
                 "semantics. Non-trivial = a rule (or the default rule) was reached, some finalizer echoes the view, "
                 "and the request has a feature in which the carriers differ (escape in the path, query, repeated or "
                 "non-canonical header name, cookie line, body); distinct by hash of rules + request",
         "entry_point_runs": 3 * len(cases), "corpus_cases": len(corpus), "generated_wellformed": n_wf,
+        "fixed_body_length_cases": len(sized), "body_bytes_sent_per_entry_point": sum(len(c["req"]["body"] or "") for c in cases),
         "generated_wellformed_with_forbidden_path_octets": n_raw, "model_variant": "Impl." + variant,
         "generated_outside_hypotheses": n_nwf, "wellformed_by_spec": n_wellformed, "covered_by_theorems": n_covered, "rejected_at_load": n_rejected,
         "exhaustive": False,
         "decisions_per_entry_point": dict(sorted(decs.items())),
         "request_features": dict(sorted(feats.items())),
         "known_finding_hits": dict(hits),
-        "samples": [gen[0]] if gen else cases[:1],
+        "samples": [next((c for c in gen if len(c["req"]["body"] or "") < 2000), gen[0])] if gen else cases[:1],
         "impl_vs_model_disagreements": len(bad_model), "impl_vs_spec_disagreements": len(bad_spec),
         "url_string_disagreements": len(bad_url), "verbose_error_body_disagreements": len(bad_body), "cases_run_again_after_executor_failure": n_rerun,
     })
@@ -519,6 +578,13 @@ def run(R):
         "impl = model is checked",
         "no trusted proxies configured; scheme = transport of the listener (TLS or not); client IP addresses are not "
         "part of the logical request",
+        "log level: the services get the logger cmd/serve builds for `log.level`, writing to a discarded writer (text "
+        "/ gelf formatting of the real writer is not exercised); the model reads the level in the dump middleware only "
+        "(theorem c13_view_independent_of_log_level), the tie varies it on every case",
+        "bodies are sent with Content-Length (no chunked transfer coding) and are at most 300 KiB long; values longer "
+        "than 1024 bytes are compared by first / last 32 bytes, length and FNV-1a hash; the payload the upstream "
+        "application receives is observed at the proxy's upstream only (the gateway in front of the decision service "
+        "and the Envoy proxy forward the body themselves)",
         "what the upstream application is shown for a header = the client's lines of that name, replaced by the value "
         "the entry point hands over: the API gateway in front of the decision service replaces the request header by "
         "the response header, Envoy applies OkHttpResponse.headers options with `append` unset as add-or-override "
@@ -583,7 +649,7 @@ def run(R):
             dd = model_diff(si, sm)
             ci, cm = canon_impl(si), vlib.res_of(sm)
             hint = ""
-            if variant == "fixed" and not model_diff(si, vlib.run_cases(vlib.driver_cmd(), [dict(sc, impl="next")])[0]):
+            if variant == "fixed" and not model_diff(si, vlib.run_cases(driver_cmd(), [dict(sc, impl="next")])[0]):
                 hint = (" [the implementation behaves like Impl.next on this input: fixes/C13-6 seems to be applied — "
                         "record it under `fixed` in known_findings.json (mentioning C13-6), the check then compares "
                         "with Impl.next]")
@@ -607,7 +673,8 @@ def replay(R, path):
     if exe is None:
         R.violation("harness does not build", {"build_log": R.harness_log[-3000:]}, no_input=True)
         return
-    c = p["case"] if "case" in p else p
+    c = gen_entryview.expand(p["case"] if "case" in p else p)
+    driver_cmd(R)
     i, m = one(exe, c)
     print("impl :", json.dumps(canon_impl(i)))
     print("model:", json.dumps(vlib.res_of(m)))
